@@ -30,7 +30,7 @@ var rMigration = &Rule{
 	Name: "R-MIGRATION",
 	Doc: "registry discipline of type migrations: (CHECK-INSERT) every insertion of the new key into backwardRegistry is dominated by a lookup of that same key whose found-branch panics (registering a target twice is rejected); " +
 		"(LOOKUP) in getTypeDetails every return of a family name for a non-opaque error is dominated by the lookup in backwardRegistry - no cached or shortcut path can serve a name computed before a migration was registered; " +
-		"(ORDER) in initialisation code, GetTypeKey of a type that is the target of a migration is evaluated after that migration is registered; (NOCHAIN) among the module's own registrations no previous key equals another registration's new key",
+		"(ORDER) in initialisation code, GetTypeKey of a type that is the target of a migration is evaluated after that migration is registered; (NOCHAIN) among the module's own registrations no previous key equals another registration's new key; (CLOSE-BACK / CLOSE-FWD) RegisterTypeMigration keeps the registry transitively closed in both directions - the previous key is resolved through the registry before it is stored, and entries pointing at the new key are re-targeted - so chained renames give the same registry in either registration order",
 	Run: runMigration,
 }
 
@@ -82,6 +82,50 @@ func runMigration(c *core.Ctx) {
 	})
 	c.Min("insertions of a new migration key", nIns, 1)
 	_ = newKey
+	// CLOSE-BACK / CLOSE-FWD: the registry is kept transitively closed in both directions, whatever the
+	// order of registration
+	sx.EachInstr(rtm, func(in ssa.Instruction) {
+		mu, ok := in.(*ssa.MapUpdate)
+		if !ok || !isGlobalLoad(mu.Map, "backwardRegistry") {
+			return
+		}
+		if _, isExtract := mu.Key.(*ssa.Extract); isExtract {
+			return
+		}
+		resolved := false
+		if ph, isPhi := mu.Value.(*ssa.Phi); isPhi {
+			for _, e := range ph.Edges {
+				ex, isEx := e.(*ssa.Extract)
+				if !isEx || ex.Index != 0 {
+					continue
+				}
+				lk, isLk := ex.Tuple.(*ssa.Lookup)
+				if !isLk || !isGlobalLoad(lk.X, "backwardRegistry") {
+					continue
+				}
+				for _, o := range ph.Edges {
+					if o != e && o == lk.Index {
+						resolved = true
+					}
+				}
+			}
+		}
+		c.Check(resolved, "errbase.RegisterTypeMigration: previous key resolved through the registry", mu.Pos(), "CLOSE-BACK: the stored previous key is backwardRegistry[prevKey] when prevKey is itself a migrated name",
+			"the previous name is stored as given: when chained renames are registered oldest first (A->B, then B->C) the newest type is encoded under the intermediate name B instead of the original A, so the outcome depends on the registration order")
+		// CLOSE-FWD: a loop re-targets entries that point at the new key to the same stored value
+		fwd := false
+		sx.EachInstr(rtm, func(in2 ssa.Instruction) {
+			mu2, ok := in2.(*ssa.MapUpdate)
+			if !ok || mu2 == mu || !isGlobalLoad(mu2.Map, "backwardRegistry") {
+				return
+			}
+			if _, isExtract := mu2.Key.(*ssa.Extract); isExtract && mu2.Value == mu.Value {
+				fwd = true
+			}
+		})
+		c.Check(fwd, "errbase.RegisterTypeMigration: entries pointing at the new key are re-targeted", mu.Pos(), "CLOSE-FWD: a loop over the registry stores the same previous key for them",
+			"entries registered earlier that name the new key as their previous name are not forwarded to the original name (newest-first chains break)")
+	})
 	// LOOKUP: must-pass-through in getTypeDetails
 	var lookup *ssa.Lookup
 	sx.EachInstr(gtd, func(in ssa.Instruction) {
